@@ -524,3 +524,163 @@ def struct_hash(u: Universe) -> int:
                 stack.extend(_safe_list(x._first_block, "_next_block"))
         h = (h * 1000003 + 17) & 0xFFFFFFFFFFFF
     return h
+
+
+# ---------------------------------------------------------------------------
+# QUERIES: the public read API must show exactly what the raw fields hold
+# ---------------------------------------------------------------------------
+
+
+def check_queries(u: Universe, pick: int = 0) -> int:
+    """See ``_check_queries``; a read-only query that raises on IR whose raw fields are
+    consistent is itself a failure to find the element in its container."""
+    try:
+        return _check_queries(u, pick)
+    except (InvFail, HarnessError, RecursionError, MemoryError):
+        raise
+    except Exception as e:  # noqa: BLE001
+        import traceback as _tb
+
+        fr = _tb.extract_tb(e.__traceback__)
+        where = next((f.name for f in reversed(fr) if "/xdsl/" in f.filename), "?")
+        raise InvFail("query-raised", f"read-only query raised {type(e).__name__} in {where} on IR whose lists, parents and use lists are consistent")
+
+
+def _check_queries(u: Universe, pick: int = 0) -> int:
+    """The user-visible form of the C01 sentence: every op/block is *found* (by the
+    public iteration, indexing and navigation API) exactly once in its container in
+    forward and backward order and points back to it; ``uses`` / ``predecessors`` show
+    exactly the referencing positions.  Compared with the raw-field walk that ``check_inv``
+    has just validated (so this must only be called when ``check_inv`` passed).
+    ``pick`` rotates which element of a container gets the O(n) index queries.
+    Returns the number of comparisons made."""
+    n_cmp = 0
+
+    def bad(code: str, detail: str) -> InvFail:
+        return InvFail("query-" + code, detail)
+
+    for b in u.blocks:
+        raw = _safe_list(b._first_op, "_next_op")
+        ops = b.ops
+        fwd = list(ops)
+        if len(fwd) != len(raw) or any(x is not y for x, y in zip(fwd, raw)):
+            raise bad("block-ops-iter", f"list({u.nm(b)}.ops) = {[u.nm(x) for x in fwd]} but the block holds {[u.nm(x) for x in raw]}")
+        bwd = list(reversed(ops))
+        if len(bwd) != len(raw) or any(x is not y for x, y in zip(bwd, reversed(raw))):
+            raise bad("block-ops-reversed", f"reversed({u.nm(b)}.ops) = {[u.nm(x) for x in bwd]} but the block holds {[u.nm(x) for x in raw]}")
+        if len(ops) != len(raw) or bool(ops) != bool(raw) or b.is_empty != (not raw):
+            raise bad("block-ops-len", f"len/bool/is_empty of {u.nm(b)}.ops disagree with its {len(raw)} ops")
+        first, last = (raw[0], raw[-1]) if raw else (None, None)
+        if b.first_op is not first or b.last_op is not last or ops.first is not first or ops.last is not last:
+            raise bad("block-first-last", f"first_op/last_op of {u.nm(b)} are {u.nm(b.first_op)}/{u.nm(b.last_op)}, the block holds {[u.nm(x) for x in raw]}")
+        for i, o in enumerate(raw):
+            if o.next_op is not (raw[i + 1] if i + 1 < len(raw) else None) or o.prev_op is not (raw[i - 1] if i else None):
+                raise bad("op-next-prev", f"{u.nm(o)}.next_op/prev_op = {u.nm(o.next_op)}/{u.nm(o.prev_op)} in {u.nm(b)} = {[u.nm(x) for x in raw]}")
+            if o.parent_block() is not b or o.parent_region() is not b.parent or o.parent_op() is not (b.parent.parent if b.parent is not None else None):
+                raise bad("op-parent-accessors", f"parent_block/parent_region/parent_op of {u.nm(o)} do not lead to {u.nm(b)} and its owners")
+        if raw:
+            for i in {0, len(raw) - 1, pick % len(raw)}:
+                if b.get_operation_index(raw[i]) != i:
+                    raise bad("operation-index", f"{u.nm(b)}.get_operation_index({u.nm(raw[i])}) = {b.get_operation_index(raw[i])}, position is {i}")
+        reg = b.parent
+        if b.parent_region() is not reg or b.parent_op() is not (reg.parent if reg is not None else None):
+            raise bad("block-parent-accessors", f"parent_region/parent_op of {u.nm(b)} disagree with its parent chain")
+        pb = reg.parent.parent if reg is not None and reg.parent is not None else None
+        if b.parent_block() is not pb:
+            raise bad("block-parent-accessors", f"{u.nm(b)}.parent_block() is {u.nm(b.parent_block())}, expected {u.nm(pb)}")
+        n_cmp += 6 + 2 * len(raw)
+    for r in u.regions:
+        raw = _safe_list(r._first_block, "_next_block")
+        blocks = r.blocks
+        fwd = list(blocks)
+        if len(fwd) != len(raw) or any(x is not y for x, y in zip(fwd, raw)):
+            raise bad("region-blocks-iter", f"list({u.nm(r)}.blocks) = {[u.nm(x) for x in fwd]} but the region holds {[u.nm(x) for x in raw]}")
+        bwd = list(reversed(blocks))
+        if len(bwd) != len(raw) or any(x is not y for x, y in zip(bwd, reversed(raw))):
+            raise bad("region-blocks-reversed", f"reversed({u.nm(r)}.blocks) = {[u.nm(x) for x in bwd]} but the region holds {[u.nm(x) for x in raw]}")
+        if len(blocks) != len(raw) or bool(blocks) != bool(raw):
+            raise bad("region-blocks-len", f"len/bool of {u.nm(r)}.blocks disagree with its {len(raw)} blocks")
+        first, last = (raw[0], raw[-1]) if raw else (None, None)
+        if r.first_block is not first or r.last_block is not last or blocks.first is not first or blocks.last is not last:
+            raise bad("region-first-last", f"first_block/last_block of {u.nm(r)} are {u.nm(r.first_block)}/{u.nm(r.last_block)}, the region holds {[u.nm(x) for x in raw]}")
+        for i, blk in enumerate(raw):
+            if blk.next_block is not (raw[i + 1] if i + 1 < len(raw) else None) or blk.prev_block is not (raw[i - 1] if i else None):
+                raise bad("block-next-prev", f"{u.nm(blk)}.next_block/prev_block wrong in {u.nm(r)} = {[u.nm(x) for x in raw]}")
+        if raw:
+            for i in {0, len(raw) - 1, pick % len(raw)}:
+                if blocks[i] is not raw[i] or blocks[i - len(raw)] is not raw[i]:
+                    raise bad("region-blocks-getitem", f"{u.nm(r)}.blocks[{i}] / [{i - len(raw)}] is not {u.nm(raw[i])}")
+                if r.get_block_index(raw[i]) != i:
+                    raise bad("block-index", f"{u.nm(r)}.get_block_index({u.nm(raw[i])}) = {r.get_block_index(raw[i])}, position is {i}")
+        if r.parent_op() is not r.parent:
+            raise bad("region-parent-accessors", f"{u.nm(r)}.parent_op() is not its parent")
+        n_cmp += 6 + len(raw)
+    # uses and predecessors (raw use lists were validated against operand lists by INV)
+    holders: list[Any] = list(u.values()) + list(u.blocks)
+    for h in holders:
+        raw_uses = []
+        cur = h.first_use
+        while cur is not None and len(raw_uses) < 100000:
+            raw_uses.append(cur)
+            cur = cur._next_use
+        got = list(h.uses)
+        if len(got) != len(raw_uses) or any(x is not y for x, y in zip(got, raw_uses)):
+            raise bad("uses-iter", f"list({u.nm(h)}.uses) has {len(got)} entries, the use list has {len(raw_uses)}")
+        for use in got:
+            if use.operation is not use._operation or use.index != use._index:
+                raise bad("use-accessors", f"a use of {u.nm(h)} reports ({u.nm(use.operation)}, {use.index})")
+        n = len(raw_uses)
+        if h.uses.get_length() != n or bool(h.uses) != (n > 0) or h.has_one_use() != (n == 1) or h.has_more_than_one_use() != (n > 1):
+            raise bad("uses-count", f"get_length/bool/has_one_use/has_more_than_one_use of {u.nm(h)} disagree with its {n} uses")
+        uu = h.get_unique_use()
+        if uu is not (raw_uses[0] if n == 1 else None) or h.get_user_of_unique_use() is not (raw_uses[0]._operation if n == 1 else None):
+            raise bad("unique-use", f"get_unique_use/get_user_of_unique_use of {u.nm(h)} disagree with its {n} uses")
+        if isinstance(h, Block):
+            exp = tuple(x._operation.parent for x in raw_uses if x._operation.parent is not None)
+            gotp = h.predecessors()
+            if len(gotp) != len(exp) or any(x is not y for x, y in zip(gotp, exp)):
+                raise bad("predecessors", f"{u.nm(h)}.predecessors() = {[u.nm(x) for x in gotp]}, branching ops live in {[u.nm(x) for x in exp]}")
+        n_cmp += 4
+    # walks: preorder / reverse / region-first orders of Operation.walk, walk_blocks
+    for root in u.roots():
+        if not isinstance(root, Operation):
+            continue
+        pre: list[Operation] = []
+        post_rev: list[Operation] = []
+        rf: list[Operation] = []
+        blks: list[Block] = []
+
+        def rec(o: Operation, depth: int = 0) -> None:
+            if depth > 200:
+                raise HarnessError("query walk: too deep")
+            pre.append(o)
+            for reg in o.regions:
+                for blk in _safe_list(reg._first_block, "_next_block"):
+                    blks.append(blk)
+                    for c in _safe_list(blk._first_op, "_next_op"):
+                        rec(c, depth + 1)
+            rf.append(o)
+
+        def rec_rev(o: Operation, depth: int = 0) -> None:
+            post_rev.append(o)
+            for reg in reversed(o.regions):
+                for blk in reversed(_safe_list(reg._first_block, "_next_block")):
+                    for c in reversed(_safe_list(blk._first_op, "_next_op")):
+                        rec_rev(c, depth + 1)
+
+        rec(root)
+        got1 = list(root.walk())
+        if len(got1) != len(pre) or any(x is not y for x, y in zip(got1, pre)):
+            raise bad("walk", f"{u.nm(root)}.walk() yields {[u.nm(x) for x in got1][:12]}..., nested ops in order are {[u.nm(x) for x in pre][:12]}...")
+        got2 = list(root.walk(region_first=True))
+        if len(got2) != len(rf) or any(x is not y for x, y in zip(got2, rf)):
+            raise bad("walk-region-first", f"{u.nm(root)}.walk(region_first=True) differs from the post-order of the nested ops")
+        rec_rev(root)
+        got3 = list(root.walk(reverse=True))
+        if len(got3) != len(post_rev) or any(x is not y for x, y in zip(got3, post_rev)):
+            raise bad("walk-reverse", f"{u.nm(root)}.walk(reverse=True) yields {[u.nm(x) for x in got3][:12]}..., expected {[u.nm(x) for x in post_rev][:12]}...")
+        got4 = list(root.walk_blocks())
+        if len(got4) != len(blks) or any(x is not y for x, y in zip(got4, blks)):
+            raise bad("walk-blocks", f"{u.nm(root)}.walk_blocks() differs from the nested blocks in order")
+        n_cmp += 4
+    return n_cmp
